@@ -471,9 +471,34 @@ def r05_5(ck):
                    "each step's dependencies are its own flow entry",
                    'steps are registered with dependencies that are not '
                    'their flow entry', c)
+    init = ck.fn('Engine.__init__', 'core.engine')
+    for nm, reg in (('_find_process_paths', 'self.processes'),
+                    ('_find_step_paths', 'self.steps')):
+        cs = list(A.calls_in(init.node, nm))
+        ok = len(cs) == 1 and A.unparse(A.arg_of(cs[0], 0)) == reg and \
+            A.unparse(A.arg_of(cs[0], 1)) == 'self.flow'
+        ck.require(ok, 'R05.5', init, cs[0] if cs else nm,
+                   '%s is given %s and the flow' % (nm, reg),
+                   '%s is called as %s: steps found there are registered '
+                   'without their flow entry and run as legacy derivers, '
+                   'before the steps they depend on' % (
+                       nm, A.unparse(cs[0]) if cs else 'never'),
+                   cs[0] if cs else None)
+    fpp = ck.fn('Engine._find_process_paths', 'core.engine')
+    for c in A.calls_in(fpp.node, '_add_process_path'):
+        ok = A.is_name(A.arg_of(c, 2, 'flow'), A.params_of(fpp.node)[2])
+        ck.require(ok, 'R05.5', fpp, c,
+                   'the flow is handed on to _add_process_path', None, c)
     app = ck.fn('Engine._add_process_path', 'core.engine')
     cfga = cfg_of(app.node)
     for c in A.calls_in(app.node, '_add_step_path'):
+        a2 = A.arg_of(c, 2, 'relative_dependencies')
+        okf = isinstance(a2, ast.Call) and A.call_name(a2) == 'get_in' and \
+            A.is_name(a2.args[0], A.params_of(app.node)[3]) and A.is_name(
+                a2.args[1], A.params_of(app.node)[2])
+        ck.require(okf, 'R05.5', app, c,
+                   "a step found among the processes is registered with "
+                   'its own flow entry', None, c)
         g = cfga.guards(cfga.node(c))
         ok = any(a[0] == 'truthy' and a[1].endswith('.is_step()') for a in g)
         ck.require(ok, 'R05.5', app, c,
